@@ -689,6 +689,9 @@ def run(ctx):
     r10 = ctx.rule("C05-R10", "the digit scanners hand out None, never a wrapped value, when the number does not fit (premise of NonZero::new(..).unwrap() and of the arithmetic on parsed numbers; shared with C13-R1/R1b)", floor=12)
     c13.run_r1(ctx, r10)
     c13.run_r1b(ctx, r10)
+    from .c05b import run_r11
+    r11 = ctx.rule("C05-R11", "an advance by X + c (c a positive constant, scanner calls peeled down to their start offset) passes over bytes that a look-ahead answered on the way: the input can end anywhere and advancing past the buffered data panics", floor=8)
+    run_r11(ctx, r11)
     from .c06 import run_r4 as c06_r4
     r9 = ctx.rule("C05-R9", "AIGER header bounds: M <= (MAX_CODE - 1) / 2 and the remainder chain I <= M, L <= M - I, A <= M - I - L, so that max_lit = 2M + 1 and the running code cannot overflow (shared with C06-R4)", floor=20)
     c06_r4(ctx, r9)
